@@ -148,6 +148,10 @@ func NumericFunction(name string) ZlispUserFunction {
 		}
 
 		accum := args[0]
+		if name == "-" && len(args) == 1 {
+			// unary minus negates, as in every Lisp: (- x) == (- 0 x)
+			return NumericDo(Sub, &SexpInt{Val: 0}, args[0])
+		}
 		var op NumericOp
 		switch name {
 		case "+":
